@@ -2,10 +2,11 @@ import EdpVerif.Impl.Decode
 /-
 Model of crates/edp_elixir_terms (range.rs, map_set.rs, date_time.rs, exceptions.rs, builders.rs) and of the
 proplist/map helpers of crates/erltf/src/term.rs (is_proplist, normalize_proplist, proplist_to_map,
-map_to_proplist, to_map_recursive), function by function and bug-for-bug.
+map_to_proplist, to_map_recursive), function by function, as the code stands with the repairs of
+notes/C20-fixes/ applied.
 
-* `i64` is `Int` with explicit bounds; arithmetic that overflows in a debug build is `Out.panic`
-  (`ck`), `saturating_add` is `satAdd`, every `as u8`/`as u32`/`as i32` cast is a named function.
+* `i64` is `Int` with explicit bounds; `abs_diff`/`unsigned_abs` are `absDiff`/`uabs` (values of `u64`, total),
+  `checked_add` is a range test, `usize` is 64 bits wide (`USIZE_MAX`), `T::try_from` is a range test (`intIn`).
 * `String` is its UTF-8 bytes; `String::from_utf8_lossy` is `lossy`.
 * `BTreeMap`/`BTreeSet` are association lists kept in order by `mapInsert`/`setInsert` under `Term.cmp`.
 -/
@@ -67,32 +68,16 @@ def mWithClauseError : Bytes := [69, 108, 105, 120, 105, 114, 46, 87, 105, 116, 
 
 def I64_MIN : Int := -9223372036854775808
 def I64_MAX : Int := 9223372036854775807
-
-/-- outcome of a function whose only failure is a Rust panic -/
-inductive Out (α : Type) where
-  | ok (a : α)
-  | panic
-  deriving Repr, BEq, DecidableEq
+/-- `usize::MAX` on the 64-bit targets the crate is built for -/
+def USIZE_MAX : Int := 18446744073709551615
 
 def InI64 (x : Int) : Prop := I64_MIN ≤ x ∧ x ≤ I64_MAX
 instance (x : Int) : Decidable (InI64 x) := by unfold InI64; infer_instance
 
-/-- the result of a checked i64 operation (dev profile: overflow panics) -/
-def ck (x : Int) : Out Int := if InI64 x then .ok x else .panic
-
-/-- `i64::abs` (panics on `i64::MIN` in a debug build) -/
-def absCk (x : Int) : Out Int := if x = I64_MIN then .panic else .ok (if x < 0 then -x else x)
-
-/-- `i64::saturating_add` -/
-def satAdd (a b : Int) : Int :=
-  if a + b > I64_MAX then I64_MAX else if a + b < I64_MIN then I64_MIN else a + b
-
-/-- `as u8` of an i64 -/
-def asU8 (i : Int) : Int := i % 256
-/-- `as u32` of an i64 -/
-def asU32 (i : Int) : Int := i % 4294967296
-/-- `as i32` of an i64 -/
-def asI32 (i : Int) : Int := (i + 2147483648) % 4294967296 - 2147483648
+/-- `a.abs_diff(b)` (a `u64`, defined for every pair) -/
+def absDiff (a b : Int) : Int := if a ≥ b then a - b else b - a
+/-- `s.unsigned_abs()` (a `u64`, defined for `i64::MIN` too) -/
+def uabs (s : Int) : Int := if s < 0 then -s else s
 
 /-! ### range.rs -/
 
@@ -111,41 +96,17 @@ def Range.isEmpty (r : Range) : Bool :=
   else if r.step < 0 then decide (r.first < r.last)
   else true
 
-/-- `ElixirRange::len`: `((last - first).abs() / step.abs() + 1) as usize` -/
-def Range.len (r : Range) : Out Nat :=
-  if r.isEmpty then .ok 0 else
-  match ck (r.last - r.first) with
-  | .panic => .panic
-  | .ok d =>
-    match absCk d with
-    | .panic => .panic
-    | .ok diff =>
-      match absCk r.step with
-      | .panic => .panic
-      | .ok st =>
-        if st = 0 then .panic else
-        match ck (diff.tdiv st + 1) with
-        | .panic => .panic
-        | .ok n => .ok n.toNat
+/-- `ElixirRange::len`: `usize::try_from(last.abs_diff(first) / step.unsigned_abs()).map_or(MAX, |n| n.saturating_add(1))`
+(the `u64` quotient always fits a 64-bit `usize`) -/
+def Range.len (r : Range) : Nat :=
+  if r.isEmpty then 0 else
+  (min (absDiff r.last r.first / uabs r.step + 1) USIZE_MAX).toNat
 
 /-- `ElixirRange::contains` -/
-def Range.contains (r : Range) (v : Int) : Out Bool :=
-  if r.isEmpty then .ok false else
-  if r.step > 0 then
-    if v ≥ r.first ∧ v ≤ r.last then
-      match ck (v - r.first) with
-      | .panic => .panic
-      | .ok d => .ok (d.tmod r.step == 0)
-    else .ok false
-  else
-    if v ≤ r.first ∧ v ≥ r.last then
-      match ck (r.first - v) with
-      | .panic => .panic
-      | .ok d =>
-        match ck (-r.step) with
-        | .panic => .panic
-        | .ok ns => .ok (d.tmod ns == 0)
-    else .ok false
+def Range.contains (r : Range) (v : Int) : Bool :=
+  if r.isEmpty then false else
+  let within := if r.step > 0 then decide (v ≥ r.first ∧ v ≤ r.last) else decide (v ≤ r.first ∧ v ≥ r.last)
+  within && (absDiff v r.first % uabs r.step == 0)
 
 /-- `RangeIterator` -/
 structure It where
@@ -156,40 +117,29 @@ structure It where
 /-- `into_iter` -/
 def Range.iter (r : Range) : It := ⟨r.first, false⟩
 
+/-- `RangeIterator::advance`: `checked_add`, and the end of the iteration when it fails -/
+def Range.advance (r : Range) (it : It) : It :=
+  if InI64 (it.cur + r.step) then { it with cur := it.cur + r.step } else { it with done := true }
+
 /-- `RangeIterator::next` -/
 def Range.next (r : Range) (it : It) : Option Int × It :=
   if it.done || r.isEmpty then (none, it) else
   if r.step > 0 then
     if it.cur > r.last then (none, { it with done := true })
     else if it.cur = r.last then (some it.cur, { it with done := true })
-    else (some it.cur, { it with cur := satAdd it.cur r.step })
+    else (some it.cur, r.advance it)
   else
     if it.cur < r.last then (none, { it with done := true })
     else if it.cur = r.last then (some it.cur, { it with done := true })
-    else (some it.cur, { it with cur := satAdd it.cur r.step })
+    else (some it.cur, r.advance it)
 
-/-- `RangeIterator::size_hint` (both components are the same number) -/
-def Range.sizeHint (r : Range) (it : It) : Out Nat :=
-  if it.done || r.isEmpty then .ok 0 else
-  if r.step > 0 then
-    if it.cur > r.last then .ok 0 else
-    match ck (r.last - it.cur) with
-    | .panic => .panic
-    | .ok d =>
-      match ck (d.tdiv r.step + 1) with
-      | .panic => .panic
-      | .ok n => .ok n.toNat
-  else if it.cur < r.last then .ok 0 else
-    match ck (it.cur - r.last) with
-    | .panic => .panic
-    | .ok d =>
-      match ck (-r.step) with
-      | .panic => .panic
-      | .ok ns =>
-        if ns = 0 then .panic else
-        match ck (d.tdiv ns + 1) with
-        | .panic => .panic
-        | .ok n => .ok n.toNat
+/-- `RangeIterator::size_hint`: `(n, Some(n))`, or `(usize::MAX, None)` when `n` does not fit `usize` -/
+def Range.sizeHint (r : Range) (it : It) : Nat × Option Nat :=
+  if it.done || r.isEmpty then (0, some 0) else
+  let past := if r.step > 0 then decide (it.cur > r.last) else decide (it.cur < r.last)
+  if past then (0, some 0) else
+  let n := absDiff r.last it.cur / uabs r.step + 1
+  if n ≤ USIZE_MAX then (n.toNat, some n.toNat) else (USIZE_MAX.toNat, none)
 
 /-- calling `next` until it returns `None`, at most `fuel` times -/
 def Range.collect (r : Range) : Nat → It → List Int
@@ -233,9 +183,26 @@ def setInsert : List Term → Term → List Term
     | .eq => t' :: r
     | .gt => t' :: setInsert r t
 
+/-- `as_integer` (still used by callers outside this crate): the small-integer variant only -/
 def asInt : Term → Option Int
   | .int i => some i
   | _ => none
+
+/-- `fields::integer` before the range test: an `Integer`, or a `BigInt` (sign and little-endian magnitude; more
+than 8 significant digits is outside every field type, as is any value the range test rejects) -/
+def intOf : Term → Option Int
+  | .int i => some i
+  | .big neg d => some (if neg then -(magVal d : Int) else (magVal d : Int))
+  | _ => none
+
+/-- `fields::integer::<T>`: the integer, provided `T::try_from` accepts it (`lo ..= hi` is the range of `T`) -/
+def intIn (lo hi : Int) (t : Term) : Option Int :=
+  (intOf t).bind fun i => if lo ≤ i ∧ i ≤ hi then some i else none
+
+def i64In : Term → Option Int := intIn I64_MIN I64_MAX
+def i32In : Term → Option Int := intIn (-2147483648) 2147483647
+def u8In : Term → Option Int := intIn 0 255
+def u32In : Term → Option Int := intIn 0 4294967295
 
 def atomName : Term → Option Bytes
   | .atom a => some a
@@ -317,7 +284,8 @@ def asErlangString : Term → Option Bytes
 /-- field lookup by atom key in a struct map -/
 def fld (m : List (Term × Term)) (k : Bytes) : Option Term := mapGet m (.atom k)
 
-def fldInt (m : List (Term × Term)) (k : Bytes) : Option Int := (fld m k).bind asInt
+/-- `fields::integer_field::<T>(map, key)` with the reader of `T` -/
+def fldWith (rd : Term → Option Int) (m : List (Term × Term)) (k : Bytes) : Option Int := (fld m k).bind rd
 
 /-- a map built by inserting atom-keyed entries one after the other into an empty `BTreeMap` -/
 def mkMap (l : List (Bytes × Term)) : List (Term × Term) :=
@@ -335,7 +303,7 @@ def Range.fromTerm (t : Term) : Option Range :=
   if structModule t != some mRange then none else
   match t with
   | .map m =>
-    match fldInt m kFirst, fldInt m kLast, fldInt m kStep with
+    match fldWith i64In m kFirst, fldWith i64In m kLast, fldWith i64In m kStep with
     | some f, some l, some s => some ⟨f, l, s⟩
     | _, _, _ => none
   | _ => none
@@ -394,8 +362,8 @@ def Date.fromTerm (t : Term) : Option Date :=
   if structModule t != some mDate then none else
   match t with
   | .map m =>
-    match fldInt m kYear, fldInt m kMonth, fldInt m kDay with
-    | some y, some mo, some d => some ⟨asI32 y, asU8 mo, asU8 d⟩
+    match fldWith i32In m kYear, fldWith u8In m kMonth, fldWith u8In m kDay with
+    | some y, some mo, some d => some ⟨y, mo, d⟩
     | _, _, _ => none
   | _ => none
 
@@ -404,8 +372,8 @@ a 2-tuple with a non-integer makes the whole `from_term` fail -/
 def usPart (m : List (Term × Term)) : Option (Int × Int) :=
   match fld m kMicrosecond with
   | some (.tuple [val, prec]) =>
-    match asInt val, asInt prec with
-    | some v, some p => some (asU32 v, asU8 p)
+    match u32In val, u8In prec with
+    | some v, some p => some (v, p)
     | _, _ => none
   | _ => some (0, 0)
 
@@ -430,8 +398,8 @@ def Time.fromTerm (t : Term) : Option Time :=
   if structModule t != some mTime then none else
   match t with
   | .map m =>
-    match fldInt m kHour, fldInt m kMinute, fldInt m kSecond, usPart m with
-    | some h, some mi, some s, some (uv, up) => some ⟨asU8 h, asU8 mi, asU8 s, uv, up⟩
+    match fldWith u8In m kHour, fldWith u8In m kMinute, fldWith u8In m kSecond, usPart m with
+    | some h, some mi, some s, some (uv, up) => some ⟨h, mi, s, uv, up⟩
     | _, _, _, _ => none
   | _ => none
 
@@ -461,9 +429,10 @@ def Naive.fromTerm (t : Term) : Option Naive :=
   if structModule t != some mNaiveDateTime then none else
   match t with
   | .map m =>
-    match fldInt m kYear, fldInt m kMonth, fldInt m kDay, fldInt m kHour, fldInt m kMinute, fldInt m kSecond, usPart m with
+    match fldWith i32In m kYear, fldWith u8In m kMonth, fldWith u8In m kDay, fldWith u8In m kHour, fldWith u8In m kMinute,
+          fldWith u8In m kSecond, usPart m with
     | some y, some mo, some d, some h, some mi, some s, some (uv, up) =>
-      some ⟨asI32 y, asU8 mo, asU8 d, asU8 h, asU8 mi, asU8 s, uv, up⟩
+      some ⟨y, mo, d, h, mi, s, uv, up⟩
     | _, _, _, _, _, _, _ => none
   | _ => none
 
@@ -492,12 +461,13 @@ def DateTime.fromTerm (t : Term) : Option DateTime :=
   if structModule t != some mDateTime then none else
   match t with
   | .map m =>
-    match fldInt m kYear, fldInt m kMonth, fldInt m kDay, fldInt m kHour, fldInt m kMinute, fldInt m kSecond, usPart m with
+    match fldWith i32In m kYear, fldWith u8In m kMonth, fldWith u8In m kDay, fldWith u8In m kHour, fldWith u8In m kMinute,
+          fldWith u8In m kSecond, usPart m with
     | some y, some mo, some d, some h, some mi, some s, some (uv, up) =>
       match (fld m kTimeZone).bind asErlangString, (fld m kZoneAbbr).bind asErlangString,
-            fldInt m kUtcOffset, fldInt m kStdOffset with
+            fldWith i32In m kUtcOffset, fldWith i32In m kStdOffset with
       | some tz, some za, some uo, some so =>
-        some ⟨⟨asI32 y, asU8 mo, asU8 d, asU8 h, asU8 mi, asU8 s, uv, up⟩, tz, za, asI32 uo, asI32 so⟩
+        some ⟨⟨y, mo, d, h, mi, s, uv, up⟩, tz, za, uo, so⟩
       | _, _, _, _ => none
     | _, _, _, _, _, _, _ => none
   | _ => none
@@ -557,10 +527,10 @@ def KeyError.fromTerm (t : Term) : Option KeyError :=
 /-- `str::strip_prefix` -/
 def stripPrefix (p s : Bytes) : Option Bytes := if p.isPrefixOf s then some (s.drop p.length) else none
 
-/-- `if module.starts_with("Elixir.") { module } else { "Elixir." + module }` -/
-def withElixir (m : Bytes) : Bytes := if elixirDot.isPrefixOf m then m else elixirDot ++ m
+/-- `format!("Elixir.{module}")` -/
+def withElixir (m : Bytes) : Bytes := elixirDot ++ m
 
-/-- `name.strip_prefix("Elixir.").unwrap_or(name)` -/
+/-- `name.strip_prefix("Elixir.").unwrap_or(name)` (`from_term`), and `without_elixir_prefix` of the constructors -/
 def withoutElixir (m : Bytes) : Bytes := (stripPrefix elixirDot m).getD m
 
 structure UndefFn where
@@ -570,6 +540,10 @@ structure UndefFn where
   reason : Option Bytes
   deriving Repr, BEq, DecidableEq
 
+/-- `UndefinedFunctionError::new` / `with_reason`: either spelling of the module is accepted -/
+def UndefFn.new (module function : Bytes) (arity : Int) (reason : Option Bytes) : UndefFn :=
+  ⟨withoutElixir module, function, arity, reason⟩
+
 def UndefFn.toTerm (e : UndefFn) : Term :=
   excMap mUndefinedFunctionError
     [(kModule, .atom (withElixir e.module)), (kFunction, .atom e.function), (kArity, .int e.arity), (kReason, optBin e.reason)]
@@ -578,8 +552,8 @@ def UndefFn.fromTerm (t : Term) : Option UndefFn :=
   if structModule t != some mUndefinedFunctionError then none else
   match t with
   | .map m =>
-    match (fld m kModule).bind atomName, (fld m kFunction).bind atomName, fldInt m kArity with
-    | some mo, some f, some a => some ⟨withoutElixir mo, f, asU8 a, (fld m kReason).bind asErlangString⟩
+    match (fld m kModule).bind atomName, (fld m kFunction).bind atomName, fldWith u8In m kArity with
+    | some mo, some f, some a => some ⟨withoutElixir mo, f, a, (fld m kReason).bind asErlangString⟩
     | _, _, _ => none
   | _ => none
 
@@ -588,6 +562,10 @@ structure FnClause where
   function : Option Bytes
   arity : Option Int
   args : Option Term
+
+/-- `FunctionClauseError::new` -/
+def FnClause.new (module function : Bytes) (arity : Int) (args : Term) : FnClause :=
+  ⟨some (withoutElixir module), some function, some arity, some args⟩
 
 def FnClause.toTerm (e : FnClause) : Term :=
   excMap mFunctionClauseError
@@ -600,9 +578,9 @@ def FnClause.fromTerm (t : Term) : Option FnClause :=
   if structModule t != some mFunctionClauseError then none else
   match t with
   | .map m =>
-    some ⟨((fld m kModule).bind atomName).map withoutElixir,
-          (fld m kFunction).bind atomName,
-          ((fld m kArity).bind asInt).map asU8,
+    some ⟨(((fld m kModule).filter (fun a => !isNilAtom a)).bind atomName).map withoutElixir,
+          ((fld m kFunction).filter (fun a => !isNilAtom a)).bind atomName,
+          fldWith u8In m kArity,
           (fld m kArgs).filter (fun a => !isNilAtom a)⟩
   | _ => none
 
